@@ -53,7 +53,8 @@ int sbdf_ts_add(sbdf_columnslice* col, sbdf_tableslice* table)
 
 	cap = sbdf_calculate_array_capacity(table->no_columns);
 
-	if (cap == table->no_columns)
+	/* a slice built by sbdf_ts_read has an array of exactly no_columns entries */
+	if (cap == table->no_columns || table->owned)
 	{
 		int new_cap = sbdf_calculate_array_capacity(1 + table->no_columns);
 		if (error = sbdf_alloc((void**)&table->columns, new_cap * sizeof(void*)))
